@@ -143,7 +143,7 @@ seed('S-c14c', 'C14', 'lexgen_util backtrack(): __done = true when the failed ma
      'first run missed it: the constructor states are equal in every field except `input`, and the argument "next() is one body for all constructors" overlooked that this one field is read by the runtime. C14 now also explores one call from every boundary state for each definition constructed from &str and from an iterator; a disagreement with the reference that only one of the two shows is reported (replayed natively through all four constructors)')
 seed('S-c15c', 'C15', 'lexgen_util: process-wide direct-mapped display-width cache in a static array of atomics, slot = c % 64, tag = c >> 8',
      'two characters of one 256-block that are 64/128/192 apart and have different widths, an eviction between them, and a schedule in which one lexer runs ahead of its clone', [], ['C15'],
-     'NOT DETECTED: the check ends INCONCLUSIVE (exit 2, no verdict), because the executor has no model for static arrays of atomics indexed by a symbolic value and for bit operations on integer-encoded symbolic values; it does not pass. Also the behavioural clone comparison steps clone and original alternately, while this change needs one of them to run ahead. Stated as outside the reach of the present machinery (DESIGN.md section 3, C15)')
+     'NOT DECIDED: the check ends INCONCLUSIVE (exit 2, no verdict; it does not pass). The executor was extended for it (static arrays of atomics as z3 arrays with symbolic indices, Atomic load/store/swap, shifts, masks, disjoint ors, division and remainder by constants on integer-encoded values, one-line and inline constants) and now runs the changed code, but z3 does not decide the resulting queries (array + div/mod + uninterpreted width) within the per-query limit. Because next() touches mutable state outside the lexer value, an undecided definition makes C15 inconclusive instead of being listed as over budget. Multi-character lexeme definitions (cl_any3, cl_word) were added to the C15 family for this kind of change')
 # ---- round 7
 seed('S-c01d', 'C01', 'nfa_to_dfa.rs: for a literal character covered by a range the targets of `_` are dropped (match on the first covering range, `_` only when no range covers it)',
      'one state in which the same character has its own transition, is covered by a range of another rule and can be consumed by `_` of a third rule, followed by input only the `_` rule continues', ['C01'], [], 'random rewind-biased and single-rule-set definitions (2 roles)')
